@@ -91,6 +91,16 @@ func vGen64(p string) (*Bitmap, *wSet) {
 		switch {
 		case pat == 4:
 			key = uint32(i)
+		case pat == 6:
+			key = uint32(2 * i)
+		case pat == 7:
+			key = []uint32{10, 30, 0xFFFFFFFF}[i]
+		case pat == 8:
+			key = []uint32{0, 10, 40}[i]
+		case pat == 9:
+			key = []uint32{5, 20, 50}[i]
+		case pat == 10:
+			key = []uint32{0, 5, 9}[i]
 		case pat == 1 && i == 0:
 			key = 0
 		case pat == 2 && i == nb-1:
@@ -449,6 +459,18 @@ func VerifC17Op() {
 		}
 		v64Wf(r)
 		vsym.Assert(v64Has(r, y) == want, "exact-set")
+	case op == 21: // copy-on-write clone, in-place AndNot that cancels an earlier bucket and moves a later one down, then a mutation
+		a.SetCopyOnWrite(true)
+		c := a.Clone()
+		x2, s2 := vGen64("b")
+		c.AndNot(x2)
+		v64Wf(c)
+		vsym.Assert(v64Has(c, y) == vsym.And(sa.has(y), !s2.has(y)), "exact-set")
+		z := v64Arg()
+		c.Add(z)
+		c.Remove(y)
+		vsym.Assert(v64Has(a, z) == sa.has(z), "clone-source-changed")
+		vsym.Assert(v64Has(a, y) == sa.has(y), "clone-source-changed")
 	case op == 20: // clone independence with copy-on-write
 		a.SetCopyOnWrite(vsym.Bool())
 		c := a.Clone()
